@@ -114,13 +114,18 @@ type Conn struct {
 	wmu      sync.Mutex // serialises slow writes
 	rdl, wdl time.Time  // read / write deadlines
 	rdlTimer *time.Timer
-	ID       int
-	Inbound  bool // accepted by corebgp's listener (remote initiated)
-	net      *Net
-	local    *net.TCPAddr
-	remote   *net.TCPAddr
-	Created  time.Duration
-	CreatedS int64
+	wdlTimer *time.Timer
+
+	stallMode bool  // StallWrites was used: writes go through writeStalled
+	stallRoom int64 // octets the remote still takes (-1: no limit)
+	writing   bool  // a Write is in progress (stalled mode)
+	ID        int
+	Inbound   bool // accepted by corebgp's listener (remote initiated)
+	net       *Net
+	local     *net.TCPAddr
+	remote    *net.TCPAddr
+	Created   time.Duration
+	CreatedS  int64
 
 	mu           sync.Mutex
 	cond         *sync.Cond
@@ -191,8 +196,94 @@ func (c *Conn) Read(p []byte) (int, error) {
 	}
 }
 
+// StallWrites models a remote that stops reading: corebgp's writes on this
+// connection are accepted for room more octets (the send buffer and the
+// remote's window), then block - one Write at a time, as the fd write lock
+// arranges - until ResumeWrites, a local Close, a reset or the write deadline.
+// A Write interrupted by the deadline has delivered part of its buffer.
+func (c *Conn) StallWrites(room int) {
+	c.mu.Lock()
+	c.stallMode = true
+	c.stallRoom = int64(room)
+	if !c.wdl.IsZero() && c.wdlTimer == nil {
+		c.wdlTimer = time.AfterFunc(time.Until(c.wdl), func() {
+			c.mu.Lock()
+			c.cond.Broadcast()
+			c.mu.Unlock()
+		})
+	}
+	c.mu.Unlock()
+}
+
+// ResumeWrites lets the remote read again.
+func (c *Conn) ResumeWrites() {
+	c.mu.Lock()
+	c.stallRoom = -1
+	c.cond.Broadcast()
+	c.mu.Unlock()
+}
+
+func (c *Conn) writeErrLocked() error {
+	switch {
+	case c.localClosed:
+		return &net.OpError{Op: "write", Net: "tcp", Err: errClosed}
+	case c.remoteReset:
+		return &net.OpError{Op: "write", Net: "tcp", Err: syscall.ECONNRESET}
+	case !c.wdl.IsZero() && !time.Now().Before(c.wdl):
+		return &net.OpError{Op: "write", Net: "tcp", Err: timeoutError{}}
+	}
+	return nil
+}
+
+// writeStalled is Write once StallWrites has been used on the connection. All
+// waiting is on the condition variable (durably blocking inside a bubble).
+func (c *Conn) writeStalled(p []byte) (int, error) {
+	c.mu.Lock()
+	defer c.mu.Unlock()
+	for c.writing {
+		if err := c.writeErrLocked(); err != nil {
+			c.writes = append(c.writes, Write{Seq: c.net.NextSeq(), At: c.net.Since(), Failed: true})
+			return 0, err
+		}
+		c.cond.Wait()
+	}
+	c.writing = true
+	defer func() {
+		c.writing = false
+		c.cond.Broadcast()
+	}()
+	n := 0
+	for n < len(p) {
+		if err := c.writeErrLocked(); err != nil {
+			c.writes = append(c.writes, Write{Seq: c.net.NextSeq(), At: c.net.Since(), Failed: true})
+			return n, err
+		}
+		room := len(p) - n
+		if c.stallRoom >= 0 && int64(room) > c.stallRoom {
+			room = int(c.stallRoom)
+		}
+		if room > 0 {
+			c.writes = append(c.writes, Write{Seq: c.net.NextSeq(), At: c.net.Since(), Data: append([]byte(nil), p[n:n+room]...), AfterRemoteGone: c.remoteClosed})
+			n += room
+			if c.stallRoom >= 0 {
+				c.stallRoom -= int64(room)
+			}
+			c.cond.Broadcast()
+			continue
+		}
+		c.cond.Wait()
+	}
+	return n, nil
+}
+
 // Write implements net.Conn: atomic, one log entry per call.
 func (c *Conn) Write(p []byte) (int, error) {
+	c.mu.Lock()
+	stalled := c.stallMode
+	c.mu.Unlock()
+	if stalled {
+		return c.writeStalled(p)
+	}
 	if us := c.net.writeSpinUs.Load(); us > 0 {
 		// a slow kernel write: concurrent Writes on one connection are
 		// serialised (as the fd write lock does) and the caller's buffer is
@@ -325,6 +416,18 @@ func (c *Conn) SetWriteDeadline(t time.Time) error {
 	c.mu.Lock()
 	defer c.mu.Unlock()
 	c.wdl = t
+	if c.wdlTimer != nil {
+		c.wdlTimer.Stop()
+		c.wdlTimer = nil
+	}
+	if !t.IsZero() && c.stallMode {
+		c.wdlTimer = time.AfterFunc(time.Until(t), func() {
+			c.mu.Lock()
+			c.cond.Broadcast()
+			c.mu.Unlock()
+		})
+	}
+	c.cond.Broadcast()
 	return nil
 }
 
